@@ -616,6 +616,13 @@ func runC08(s *kernel.Sim, enumerate bool) {
 		}
 		s.Rule("R4")
 		okv := d.v == vOld[d.i] || (vNewRef != nil && d.v == vNewRef[d.i])
+		if okv && code != 200 && d.v != vOld[d.i] {
+			// the update was rejected or failed: the running flows keep behaving as
+			// before, so no transaction may have been handled by the new configuration
+			s.Violate("R4", "probe-during-failed-update-saw-the-rejected-configuration", "a %s %s transaction during %s (answered %d, %s) got %q, the answer of the configuration that was not accepted; the old configuration answers %s",
+				c08Probes[d.i][0], c08Probes[d.i][1], endpoint, code, faultDesc, d.v, vOld[d.i])
+			continue
+		}
 		if !okv {
 			want := vOld[d.i]
 			if vNewRef != nil {
